@@ -169,6 +169,9 @@ func c20Die(p *Program, r *Report) {
 		r.Check(lc.Chain.indexOf(lc.SchedCleanup) >= 0 && len(clear) > 0 && !anyIn(sg.Reach(sg.entry(), clear, av), sg.Exits), fmt.Sprintf("kill chain clears the scheduler (restarting=%v)", restarting), lc.SchedCleanup.Pos(),
 			"the scheduler-cleanup step is part of the kill chain and calls the actor scheduler's Clear on every path once the killed mark is won")
 	}
+	// the clearing step runs after the dying behaviour had its last word: a job armed while handling the own OnKilled is cleared too
+	ci, bi := lc.Chain.indexOf(lc.SchedCleanup), lc.Chain.indexOf(lc.ExecBehavior)
+	r.Check(ci >= 0 && bi >= 0 && ci > bi, "scheduler cleanup runs after the OnKilled behaviour", lc.OnKilledFn.Pos(), fmt.Sprintf("in the kill chain the scheduler-cleanup step (position %d) comes after the step that runs the actor's behaviour on its own OnKilled (position %d): no job scheduled by the dying incarnation survives it", ci, bi))
 	// Clear deletes every recorded key
 	clr := p.methodNamed(s.T, "Clear")
 	if clr == nil {
